@@ -76,6 +76,9 @@ def _convert_value(value: Any) -> Any:
         return [_convert_value(item) for item in value.items]
     elif isinstance(value, InlineMap):
         return {k: _convert_value(v) for k, v in value.pairs.items()}
+    elif isinstance(value, dict):
+        # GH#287 P3: nested META blocks are plain dicts whose values may still be AST values
+        return {k: _convert_value(v) for k, v in value.items()}
     else:
         return value
 
